@@ -2,24 +2,34 @@
   C12 — Qiskit conversion preserves the circuit's unitary, or refuses.
 
   Only the property theorems and their non-vacuity examples live here; helper lemmas are in
-  LW/Proofs/C12.lean.  The model (LW.Model.QConvert) mirrors qiskit_convert.py: `toAdjacent` is
+  LW/Proofs/C12.lean (decision logic) and LW/Proofs/C12Full*.lean (amplitude-level clause).  The
+  model (LW.Model.QConvert) mirrors qiskit_convert.py: `toAdjacent` is
   `convert_two_qubits_to_adjacent`, `psAnalyze true` is `post_selection_analyzer` with the repaired
   rule (F2; `psAnalyze false` is the rule of the pinned code), `convert` is
   `QiskitConverter.convert`.  All statements are for every instruction list (any length, any
   qubits, any number of qubits).
 
-  What is proved: the decision logic — adjacency swaps, safety of the post-selection analysis in
-  the per-qubit photon-number semantics, the refusal paths.  What is not proved here: the
-  amplitude-level clause (accepted amplitudes = common non-zero scalar × the qiskit unitary).  It
-  follows from `ps_analysis_safe` + the C13 tables + multiplicativity of the Fock functor (a
-  dual-rail encoded state enters and leaves every gate, so each gate contributes its scalar times
-  its named matrix); the multiplicativity theorem is not available in this library yet, and the
-  clause is evaluated on the implementation on every run instead (harness/props/c12.py, `oracle:`).
+  What is proved:
+  * the decision logic — adjacency swaps, safety of the post-selection analysis in the per-qubit
+    photon-number semantics, the refusal paths;
+  * the amplitude-level clause `convert_correct` (= `convert_correct_statement`, fully proved, no
+    extra hypotheses): for every field with valid gate constants, all rotation parameters, either
+    mode and every accepted instruction list on distinct in-range qubits, the circuit assembled
+    from the library's gates maps each dual-rail basis input to accepted outputs whose amplitudes
+    are one common non-zero scalar times the ideal action of the instruction list, and 0 outside
+    the qubit subspace.  Proof (LW/Proofs/C12Full.lean): the Fock functor in polynomial form
+    (substitution homomorphisms of `MvPolynomial ℕ R`, characteristic-free, multiplicative by
+    construction), a refinement of `Circuit.add` without unitarity hypotheses, the C13 amplitude
+    tables per gate, `ps_analysis_safe` for the post-selection rules, and a forward induction
+    over the instruction list.
+  The agreement of `idealRun` with `qiskit.quantum_info.Operator` (little-endian) is what the
+  harness checks on every run (harness/props/c12.py, `oracle:`); it is not a Lean statement.
 -/
 import LW.Proofs.C12
 import LW.Proofs.C13Field
 import LW.Model.QConvertSem
 import LW.Proofs.C12Inst
+import LW.Proofs.C12Full
 
 namespace LW.C12
 
@@ -104,7 +114,7 @@ theorem heralded_only_refuses_three (fixed : Bool) (nq : Nat) (gs : List Instr) 
     (hg : g ∈ gs) (h3 : g.qubits.length = 3) : ∃ e, convert false fixed nq gs = .error e :=
   QC.heralded_only_refuses_three fixed nq gs g hg h3
 
-/-! ### the amplitude-level clause (stated, not proved)
+/-! ### the amplitude-level clause
 
 The full property: for every field `R` with valid gate constants, every rotation parameters and
 every instruction list on distinct in-range qubits that the converter accepts (either mode), the
@@ -115,11 +125,9 @@ subspace.  `idealRun` is the textbook action of the instructions on basis amplit
 qubit 0); its agreement with `qiskit.quantum_info.Operator` (little-endian) is what the harness
 checks.
 
-Missing for a proof: multiplicativity of the Fock functor (`Φ(U·V) = Φ(U)·Φ(V)`), which would let
-the amplitude of the whole circuit be computed gate by gate; `ps_analysis_safe` supplies the
-per-gate hypothesis (dual-rail in, dual-rail out) and C13 the per-gate tables.  The body of this
-statement evaluates to `true` on concrete circuits over the exact tower `TCZH` (e.g.
-`h(0); cx(0,2); z(2)`, heralded-only, `k = 1/4`). -/
+The statement is kept as a `def` (it predates its proof); `convert_correct` below proves it as
+written.  The scalar is the product of the per-gate scalars (1 for single-qubit gates and SWAP,
+−1/3 for post-selected `cx`/`cz`, 1/4 for heralded `cx`/`cz`, i/(6√2) for `ccx`/`ccz`). -/
 def convert_correct_statement : Prop :=
   ∀ (R : Type) [Field R] (c : GC R), c.Valid →
   ∀ (par : Nat → R × R) (aps : Bool) (nq : Nat) (gs : List Instr) (o : ConvOut),
@@ -131,10 +139,27 @@ def convert_correct_statement : Prop :=
           gateAmp c.i circ (dualRail ib) out =
             if isDualRail out then k * idealRun c par 0 gs (delta ib) (unDualRail out) else 0
 
-/-- proved part of that clause (`convert_correct_partial`): under the hypotheses of the statement
-the run of the accepted instruction list keeps one photon in every qubit after every instruction
-(so every gate sees and produces dual-rail encoded states), for the analyser's flags — this is
-`ps_analysis_safe`, restated for a converted circuit. -/
+/-- **Amplitude-level correctness of the converter**, for every instruction list, either mode,
+every field with valid gate constants (`convert_correct_statement` as written). -/
+theorem convert_correct : convert_correct_statement :=
+  LW.C12F.convert_correct_full
+
+/-- the hypotheses of `convert_correct` are met, e.g. by `h(0); cx(2,0); ccz(0,1,2)` on three
+qubits with post-selection allowed -/
+example : ∃ o, convert true true 3 [⟨"h", [0]⟩, ⟨"cx", [2, 0]⟩, ⟨"ccz", [0, 1, 2]⟩] = .ok o ∧
+    ∀ g ∈ ([⟨"h", [0]⟩, ⟨"cx", [2, 0]⟩, ⟨"ccz", [0, 1, 2]⟩] : List Instr),
+      g.qubits.Nodup ∧ ∀ q ∈ g.qubits, q < 3 := by
+  have h : (convert true true 3 [⟨"h", [0]⟩, ⟨"cx", [2, 0]⟩, ⟨"ccz", [0, 1, 2]⟩]).toOption.isSome
+      = true := by decide
+  cases hc : convert true true 3 [⟨"h", [0]⟩, ⟨"cx", [2, 0]⟩, ⟨"ccz", [0, 1, 2]⟩] with
+  | error e => rw [hc] at h; simp [Except.toOption] at h
+  | ok o => exact ⟨o, rfl, by decide⟩
+
+/-- the photon-number part of that clause on its own (`convert_correct_partial`, kept from before
+the full proof existed): under the hypotheses of the statement the run of the accepted instruction
+list keeps one photon in every qubit after every instruction (so every gate sees and produces
+dual-rail encoded states), for the analyser's flags — this is `ps_analysis_safe`, restated for a
+converted circuit. -/
 theorem convert_correct_partial (aps : Bool) (nq : Nat) (gs : List Instr) (o : ConvOut)
     (hc : convert aps true nq gs = .ok o) (haps : aps = true)
     (hwf : ∀ g ∈ gs, ∀ q ∈ g.qubits, q < nq) (c0 : Config) (tr : List Config) (h0 : AllOne nq c0)
